@@ -171,6 +171,7 @@ def main(tier, replay=None):
         cnt["file tested twice"] += len(set(c["ord"])) < len(c["ord"])
         cnt["three files"] += len(set(c["ord"])) == 3
     B.require_nonvacuous("c13", cnt)
+    B.binding_demo(jobs)
     results = B.pool_map(run_case, jobs, workers=8)
     runs_for_trace = {}
     nontriv = set()
